@@ -311,7 +311,7 @@ if __name__ == "__main__":
 """
 
 
-def run_subprocess(args, files, timeout=120, env_extra=None, start_method=None, nofile=None):
+def run_subprocess(args, files, timeout=120, env_extra=None, start_method=None, nofile=None, one_cpu=False):
     """Run `python -m cutadapt` as a real process (start_method: run it with that multiprocessing start method -
     'spawn' is the default on macOS/Windows, 'forkserver' the coming default on Linux)."""
     d = tempfile.mkdtemp(prefix="s", dir=scratch_root())
@@ -335,11 +335,17 @@ def run_subprocess(args, files, timeout=120, env_extra=None, start_method=None, 
         env.update(env_extra)
     r = Result()
     r.timed_out = False
+    pre = None
+    if one_cpu:
+        # the process (and the workers it starts) may use a single CPU, as under taskset -c N, a cpuset or a
+        # container that was given one CPU
+        cpu = min(os.sched_getaffinity(0))
+        pre = lambda: os.sched_setaffinity(0, {cpu})  # noqa: E731
     try:
         p = subprocess.run(
             command + [str(a) for a in args],
             cwd=d, env=env, stdout=subprocess.PIPE, stderr=subprocess.PIPE, timeout=timeout,
-            stdin=subprocess.DEVNULL,
+            stdin=subprocess.DEVNULL, preexec_fn=pre,
         )
         r.exit = p.returncode
         r.stdout = p.stdout
